@@ -36,6 +36,10 @@ func init() { components["rediswait"] = runRedisWait }
 
 type rwTidKey struct{}
 
+// rwMaxGap bounds the sleep between two polls of a waiter, and how long a free-running waiter may take to notice a
+// change (the code polls every 4..64 ms; the bound leaves room for a loaded machine)
+const rwMaxGap = 500 * time.Millisecond
+
 type rwEvent struct {
 	i     int
 	kind  string // gate | after | done
@@ -160,7 +164,13 @@ func runRedisWaitCase(ctx *Ctx, nw int, steps int, script []string) {
 	}
 	settle := func(i int, afterSleepOK bool) {
 		// after a start / a released poll: the waiter parks at a GET (possibly after its sleep) or returns
+		t0 := time.Now()
 		e, ok := next(i, settleBound)
+		if ok && e.kind == "gate" && afterSleepOK && time.Since(t0) > rwMaxGap {
+			// the lateness of a wake-up is the length of one sleep: the code's back-off stays below 100 ms
+			ctx.R.Quiet("mon C07-returns-promptly", fmt.Sprintf("waiter %d slept %v between two polls (the record was unchanged): a change made right after a poll is noticed that late", i, time.Since(t0).Round(time.Millisecond)))
+			c.failed = true
+		}
 		if c.failed {
 			return
 		}
@@ -415,6 +425,8 @@ func runRedisWait(ctx *Ctx) {
 		{"put a 0", "start 0 a cur", "start 1 a cur", "cancel 0", "poll 0", "poll 1", "poll 1", "cas a 0 cur", "poll 1"},
 		// a write that keeps value and lifetime but not the version
 		{"put a 0", "start 0 a cur", "poll 0", "cas a 0 cur", "poll 0"},
+		// a key that stays quiet for many polls: the sleep between polls must stay short, then the change is seen at once
+		{"put a 0", "start 0 a cur", "poll 0", "poll 0", "poll 0", "poll 0", "poll 0", "poll 0", "poll 0", "poll 0", "put a 0", "poll 0"},
 		// a losing CAS and a losing Create change nothing: the waiter keeps sleeping
 		{"put a 0", "put a 0", "start 0 a cur", "poll 0", "cas a 0 stale", "create a 0", "poll 0", "poll 0", "delete a", "poll 0"},
 	}
@@ -429,9 +441,9 @@ func runRedisWait(ctx *Ctx) {
 	rwFreeRunning(ctx)
 }
 
-// rwFreeRunning: no gates, real time.  A waiter on the current version must still be blocked after 150 ms
-// without a change, must return nil / ErrNotExist within a second of a Put / Delete, and the context's error
-// within a second of a cancellation.
+// rwFreeRunning: no gates, real time.  A waiter on the current version must still be blocked after a quiet period
+// without a change (now 1.2 s), must return nil / ErrNotExist within rwMaxGap of a Put / Delete, and the
+// context's error within rwMaxGap of a cancellation.
 func rwFreeRunning(ctx *Ctx) {
 	mr, err := miniredis.Run()
 	if err != nil {
@@ -466,7 +478,7 @@ func rwFreeRunning(ctx *Ctx) {
 			ctx.R.Quiet("mon C07-no-invented-change", fmt.Sprintf("free-running %s: the waiter returned %s although the record had not changed and its context was live", sc.name, v))
 			cancel()
 			continue
-		case <-time.After(150 * time.Millisecond):
+		case <-time.After(1200 * time.Millisecond): // (long enough for a growing back-off to show)
 		}
 		t0 := time.Now()
 		sc.act(cancel)
@@ -475,8 +487,8 @@ func rwFreeRunning(ctx *Ctx) {
 			if v != sc.want {
 				ctx.R.Quiet("mon C07-right-verdict", fmt.Sprintf("free-running %s: the waiter returned %s, expected %s", sc.name, v, sc.want))
 			}
-		case <-time.After(settleBound):
-			ctx.R.Quiet("mon C07-returns-promptly", fmt.Sprintf("free-running %s: the waiter had not returned %v after the change", sc.name, time.Since(t0).Round(time.Millisecond)))
+		case <-time.After(rwMaxGap):
+			ctx.R.Quiet("mon C07-returns-promptly", fmt.Sprintf("free-running %s: after 1.2 s without a change the waiter had not returned %v after the change / cancellation", sc.name, time.Since(t0).Round(time.Millisecond)))
 		}
 		cancel()
 	}
